@@ -14,7 +14,7 @@ from guppylang_internals.compiler.expr_compiler import ExprCompiler
 from guppylang_internals.definition.value import CallableDef
 from guppylang_internals.diagnostic import Error
 from guppylang_internals.error import GuppyComptimeError, GuppyError, exception_hook
-from guppylang_internals.nodes import PlaceNode
+from guppylang_internals.nodes import GlobalCall, PlaceNode
 from guppylang_internals.tracing.builtins_mock import mock_builtins
 from guppylang_internals.tracing.object import GuppyObject
 from guppylang_internals.tracing.state import (
@@ -172,10 +172,16 @@ def trace_call(func: CallableDef, *args: Any) -> Any:
     ret_wire = ExprCompiler(state.ctx).compile(call_node, state.dfg)
 
     # Update inouts
+    # For an overloaded function, the inputs are the ones of the selected variant
+    func_ty = func.ty
+    if isinstance(call_node, GlobalCall):
+        callee = state.globals[call_node.def_id]
+        if isinstance(callee, CallableDef):
+            func_ty = callee.ty
     # If the input types of the function aren't known, we can't check this.
     # This is the case for functions with a custom checker and no type annotations.
-    if len(func.ty.inputs) != 0:
-        for inp, arg, var in zip(func.ty.inputs, args, arg_vars, strict=True):
+    if len(func_ty.inputs) != 0:
+        for inp, arg, var in zip(func_ty.inputs, args, arg_vars, strict=True):
             if InputFlags.Inout in inp.flags:
                 # Note that `inp.ty` could refer to bound variables in the function
                 # signature. Instead, make sure to use `var.ty` which will always be a
